@@ -125,6 +125,11 @@ def analyse(job):
                 res["result_zero_extended"] = rr == "unsat"
         runs, bad = tv.validate_paths(L, kidx, traps, side, max_paths=4 if tier == "quick" else 10)
         res["validation"].append({"backend": be, "runs": runs, "mismatches": bad})
+        bi = tv.boundary_inputs(k, quick=tier == "quick")
+        if bi:
+            runs, bad = tv.validate_inputs(L, kidx, traps, bi, side)
+            res["validation"].append({"backend": be, "runs": runs, "mismatches": bad, "kind": "float boundary values"})
+            res["boundary_runs"] = runs
     except Unsupported as e:
         res["status"] = "unsupported"
         res["reason"] = str(e)
@@ -261,7 +266,7 @@ def run_check(tier):
         "mnemonics_executed": sorted(mnemonics),
         "known_findings_hit": [k for k, _ in rep.known_hit],
         "outside_the_claim": ["everything that needs a heap allocation or a call: classes, closures, trait objects, generics, strings, Vec/Option, globals",
-                              "floating point", "compositions beyond depth-3 expression kernels", "arm64 output", "stdout formatting of the runtime"],
+                              "floating point arithmetic and comparisons; only float<->int conversions are covered", "compositions beyond depth-3 expression kernels", "arm64 output", "stdout formatting of the runtime"],
     }
     common.write_evidence(PID, tier, "translation_validation", cov, assumptions, time.time() - t0, violations=len(rep.new))
     log("[C01] %d kernel x back end pairs analysed (%d unsupported), %d verdict queries (%d undecided), %d replays, %d validation runs, %.1fs"
